@@ -46,10 +46,14 @@ impl Store {
                         }
                     }
                     StoreCommand::Read(key, sender) => {
+                        #[cfg(hotstuff_verif)]
+                        verif_tap::on_command(&tap_path, 'r', &key);
                         let response = db.get(&key);
                         let _ = sender.send(response);
                     }
                     StoreCommand::NotifyRead(key, sender) => {
+                        #[cfg(hotstuff_verif)]
+                        verif_tap::on_command(&tap_path, 'n', &key);
                         let response = db.get(&key);
                         match response {
                             Ok(None) => obligations
@@ -107,10 +111,26 @@ pub mod verif_tap {
     use std::cell::RefCell;
 
     type WriteTap = Box<dyn Fn(&str, &[u8], &[u8])>;
+    type CommandTap = Box<dyn Fn(&str, char, &[u8])>;
 
     thread_local! {
         static TAP: RefCell<Option<WriteTap>> = RefCell::new(None);
         static HANDLES: RefCell<Vec<(String, Store)>> = RefCell::new(Vec::new());
+        static COMMAND_TAP: RefCell<Option<CommandTap>> = RefCell::new(None);
+    }
+
+    /// Install (or remove) a tap on the instant the store task takes up a read ('r') or a
+    /// notify-read ('n') command.
+    pub fn install_command_tap(tap: Option<CommandTap>) {
+        COMMAND_TAP.with(|t| *t.borrow_mut() = tap);
+    }
+
+    pub(crate) fn on_command(path: &str, kind: char, key: &[u8]) {
+        COMMAND_TAP.with(|t| {
+            if let Some(tap) = t.borrow().as_ref() {
+                tap(path, kind, key);
+            }
+        });
     }
 
     /// Install (or remove) the write tap of the current thread; also forgets all handles.
